@@ -1,7 +1,7 @@
 from .common import *
 
 def run(tier):
-    r = Run('C16', tier, level='proof')
+    r = Run('C16', tier)
     u = U_base64()
     N = 24 if tier == 'quick' else 60
     envs = ['env_heap.c', 'env_cxx.c', 'env_ctype.c']
